@@ -690,7 +690,7 @@ func (w *World) CheckSweep(out *Outcome, runs []*Obs) []Violation {
 		for _, o := range runs[1:] {
 			if (outcome(o) == "ok") != first {
 				oracle := "outcome-varies-with-order"
-				if subst && w.staleVersionPattern(runs) && (hasMultiCandidatePoint(out) || w.hasWireAndFuncHolder()) {
+				if subst && w.staleVersionPattern(runs) && w.enumerationOrderCanDecide(out, runs) {
 					oracle = "outcome-varies-under-substitution"
 				}
 				vs = append(vs, v("C10", oracle, "", fmt.Sprintf("no point of the program is tied, yet run %s ended %s (%s%s) and run %s ended %s (%s%s)",
@@ -784,6 +784,132 @@ func (w *World) staleVersionPattern(runs []*Obs) bool {
 		}
 	}
 	return failing > 0
+}
+
+// staleFailures returns the components whose creation was the first to fail in the failing
+// runs of the sweep.
+func (w *World) staleFailures(runs []*Obs) []string {
+	seen := map[string]bool{}
+	for _, o := range runs {
+		if o.OK() {
+			continue
+		}
+		for _, c := range o.Reg {
+			if c.Op == "goc-exit" && c.Err {
+				if id := w.instByName(c.Name); id != "" {
+					seen[id] = true
+				}
+				break
+			}
+		}
+	}
+	return sdl.SortedKeys(seen)
+}
+
+// needs returns everything the creation of the component can lead to: candidates of its
+// points (all of them, whatever the ranking), by-name targets (also of an unfitting type:
+// they are created before they are rejected), lookups from its initialization callbacks and
+// lookups a post-processor performs while handling it - transitively.
+// Needs is needs for the generator.
+func (w *World) Needs(out *Outcome, from string) map[string]bool { return w.needs(out, from) }
+
+func (w *World) needs(out *Outcome, from string) map[string]bool {
+	seen := map[string]bool{from: true}
+	q := []string{from}
+	for len(q) != 0 {
+		id := q[0]
+		q = q[1:]
+		var next []string
+		if i := w.Insts[id]; i != nil {
+			next = append(next, i.InitLookups...)
+			for _, f := range sdl.SortedKeys(out.Res[id]) {
+				r := out.Res[id][f]
+				next = append(next, r.Cands...)
+				if r.Point.Sel == sdl.SelName {
+					next = append(next, w.ByName[r.ReqName]...)
+				}
+			}
+		}
+		for _, pr := range w.P.Procs {
+			for _, ru := range pr.Rules {
+				if ru.Action == "lookup" && ru.Target == id {
+					next = append(next, ru.Sub)
+				}
+			}
+		}
+		for _, n := range next {
+			if w.Insts[n] != nil && !seen[n] {
+				seen[n] = true
+				q = append(q, n)
+			}
+		}
+	}
+	return seen
+}
+
+// enumerationOrderCanDecide is the precondition of the D9 finding, judged for the components
+// whose creation failed: the order in which the registries enumerate can decide where the
+// cycle of such a component is entered only through a holder that creates several things in
+// an enumeration-dependent order - a point with two or more candidates, a component with both
+// wire and func points (the two scanners file their properties in the order in which the
+// registry enumerated them), the App component with its runners and closers, the components
+// that are themselves post-processors (created in registration order) - and only if that
+// holder's needs include the failed component. Otherwise the name-sorted refresh fixes the
+// creation order and the outcome must not vary at all.
+func (w *World) enumerationOrderCanDecide(out *Outcome, runs []*Obs) bool {
+	failed := w.staleFailures(runs)
+	if len(failed) == 0 {
+		return false
+	}
+	// groups of components created by one holder in an enumeration-dependent order
+	var groups [][]string
+	for _, i := range w.P.Instances {
+		t := w.Types[i.Type]
+		wire, fn := false, false
+		for _, pt := range t.Points {
+			if pt.Sel == sdl.SelFunc {
+				fn = true
+			} else {
+				wire = true
+			}
+			if r := out.Res[i.ID][pt.Field]; r != nil && len(r.Cands) >= 2 {
+				groups = append(groups, r.Cands)
+			}
+		}
+		if wire && fn {
+			groups = append(groups, []string{i.ID})
+		}
+	}
+	var roles, procs []string
+	for _, i := range w.P.Instances {
+		t := w.Types[i.Type]
+		if t.Role != "" {
+			roles = append(roles, i.ID)
+		}
+		if t.Proc {
+			procs = append(procs, i.ID)
+		}
+	}
+	if len(roles) >= 2 {
+		groups = append(groups, roles)
+	}
+	if len(procs) >= 2 {
+		groups = append(groups, procs)
+	}
+	for _, f := range failed {
+		ok := false
+		for _, g := range groups {
+			for _, c := range g {
+				if w.needs(out, c)[f] {
+					ok = true
+				}
+			}
+		}
+		if !ok {
+			return false
+		}
+	}
+	return true
 }
 
 // hasMultiCandidatePoint: some point of the program has two or more candidates, i.e. the
